@@ -197,6 +197,106 @@ func c01MustBuild(g *model.G) geom.T {
 	return nil
 }
 
+// c01EveryLength: SetCoords / Coords round trips of geometries of exactly idx
+// coordinates, idx = 0, 1, 2, ..., three layouts, five multi-coordinate types
+// (parts cut at thirds, with an empty part in between): flattening and inflating in
+// blocks of any size has its seam at some length.
+func c01EveryLength(c *fw.Ctx, idx int) {
+	n := idx
+	for _, layout := range []geom.Layout{geom.XY, geom.XYZ, geom.XYZM} {
+		stride := layout.Stride()
+		cs := make([]geom.Coord, n)
+		for i := range cs {
+			cs[i] = make(geom.Coord, stride)
+			for k := range cs[i] {
+				cs[i][k] = float64((i*stride+k)%9973) + 0.25
+			}
+		}
+		a, b := n/3, 2*n/3
+		parts := [][]geom.Coord{cs[:a], {}, cs[a:b], cs[b:]}
+		eq1 := func(what string, got []geom.Coord, want []geom.Coord) bool {
+			if len(got) != len(want) {
+				c.Fail("not-equal", "%s of %d coordinates: %d coordinates read back", what, len(want), len(got))
+				return false
+			}
+			for i := range want {
+				if len(got[i]) != stride {
+					c.Fail("not-equal", "%s: coordinate %d read back with %d ordinates", what, i, len(got[i]))
+					return false
+				}
+				for k := range want[i] {
+					if got[i][k] != want[i][k] {
+						c.Fail("not-equal", "%s of %d coordinates: coordinate %d reads back as %v, was set as %v", what, len(want), i, got[i], want[i])
+						return false
+					}
+				}
+			}
+			return true
+		}
+		c.SetInput(map[string]any{"coordinates": n, "layout": layout.String(), "ordinate_i": "(i mod 9973) + 0.25", "parts": fmt.Sprintf("[0,%d) [] [%d,%d) [%d,%d)", a, a, b, b, n)})
+		var ls *geom.LineString
+		var mpt *geom.MultiPoint
+		var pg *geom.Polygon
+		var ml *geom.MultiLineString
+		var mpg *geom.MultiPolygon
+		var err [5]error
+		if c.Guard("panic", func() {
+			ls, err[0] = geom.NewLineString(layout).SetCoords(cs)
+			mpt, err[1] = geom.NewMultiPoint(layout).SetCoords(cs)
+			pg, err[2] = geom.NewPolygon(layout).SetCoords(parts)
+			ml, err[3] = geom.NewMultiLineString(layout).SetCoords(parts)
+			mpg, err[4] = geom.NewMultiPolygon(layout).SetCoords([][][]geom.Coord{{parts[0], parts[1]}, {}, {parts[2]}, {parts[3]}})
+		}) {
+			return
+		}
+		c.Eval(5)
+		for i, e := range err {
+			if e != nil {
+				c.Fail("setcoords-error", "SetCoords (type %d of LineString, MultiPoint, Polygon, MultiLineString, MultiPolygon) of %d coordinates failed: %v", i, n, e)
+				return
+			}
+		}
+		for _, t := range []geom.T{ls, mpt, pg, ml, mpg} {
+			if !wfCheck(c, fmt.Sprintf("SetCoords of %d coordinates", n), t) {
+				return
+			}
+			if len(t.FlatCoords()) != n*stride {
+				c.Fail("not-equal", "%T after SetCoords of %d coordinates holds %d ordinates", t, n, len(t.FlatCoords()))
+				return
+			}
+		}
+		var got1, got1b []geom.Coord
+		var got2, got2b [][]geom.Coord
+		var got3 [][][]geom.Coord
+		if c.Guard("panic", func() {
+			got1, got1b = ls.Coords(), mpt.Coords()
+			got2, got2b = pg.Coords(), ml.Coords()
+			got3 = mpg.Coords()
+		}) {
+			return
+		}
+		if !eq1("LineString", got1, cs) || !eq1("MultiPoint", got1b, cs) {
+			return
+		}
+		if len(got2) != 4 || len(got2b) != 4 || len(got3) != 4 || len(got3[0]) != 2 || len(got3[1]) != 0 || len(got3[2]) != 1 || len(got3[3]) != 1 {
+			c.Fail("not-equal", "parts read back: Polygon %d rings, MultiLineString %d lines, MultiPolygon %d polygons (set: 4, 4, 4 of 2/0/1/1 rings)", len(got2), len(got2b), len(got3))
+			return
+		}
+		for k, want := range parts {
+			if !eq1(fmt.Sprintf("Polygon ring %d", k), got2[k], want) || !eq1(fmt.Sprintf("MultiLineString line %d", k), got2b[k], want) {
+				return
+			}
+		}
+		if !eq1("MultiPolygon polygon 0 ring 0", got3[0][0], parts[0]) || !eq1("MultiPolygon polygon 0 ring 1", got3[0][1], parts[1]) || !eq1("MultiPolygon polygon 2 ring 0", got3[2][0], parts[2]) || !eq1("MultiPolygon polygon 3 ring 0", got3[3][0], parts[3]) {
+			return
+		}
+	}
+	c.Count("lengths_set_and_read_back")
+	if idx%1000 == 0 {
+		c.Distinct(fmt.Sprintf("every-length/%d", idx))
+	}
+}
+
 func c01Shapes(c *fw.Ctx, idx int) {
 	r := c.R
 	kind := gen.Kinds7[r.Intn(len(gen.Kinds7))]
@@ -896,6 +996,7 @@ func init() {
 		Classes: []fw.Class{
 			{Name: "shapes", Quick: 120000, Thorough: 3000000, Run: c01Shapes},
 			{Name: "decoders", Quick: 60000, Thorough: 1500000, Run: c01Decoders},
+			{Name: "every-length", Quick: 6001, Thorough: 30001, Chunk: 40, Run: c01EveryLength, Exhaustive: "SetCoords/Coords of every number of coordinates from 0 to the class count, three layouts, five types"},
 			{Name: "nolayout", Quick: 21, Thorough: 21, Chunk: 21, Run: c01NoLayout, Exhaustive: "7 types x 3 ways of obtaining a NoLayout geometry"},
 		},
 		Require: []string{"wf_ok", "wrong_length_injected", "empty_component_before_nonempty", "nolayout_cases", "setcoords_on_used_geometry", "setcoords_with_aliasing_input", "decoded_wkt", "decoded_geojson", "decoded_ewkb-ndr"},
